@@ -54,6 +54,10 @@ class _Part:
         return False
 
 
+import re as _re
+_LOST = _re.compile(r'(?<![A-Za-z_])TOP(?![A-Za-z_])')
+
+
 class Ctx:
     """Collects obligations for one property check."""
 
@@ -88,6 +92,9 @@ class Ctx:
             raise AnalysisError(rule, site, 'obligation for undeclared rule (internal error)')
         if key is None:
             key = what
+        if not ok and _LOST.search(detail or ''):
+            # enforced centrally: a value the analysis lost track of (TOP) is never evidence of a violation
+            raise AnalysisError(rule, site, f'{what}: value not tracked by the analysis ({(detail or "")[:300]})')
         self.obs.append(Obligation(rule, site, what, bool(ok), detail, f'{rule}|{key}', facts))
         return bool(ok)
 
